@@ -97,8 +97,13 @@ Definition EINTR := 4.
 Definition EBADRESP := EIO.
 
 (* response decoders: total, so that "for all responses" really is all *)
+(* a successful descriptor-returning call returns a non-negative number *)
 Definition as_fd (r : resp) : result Z N :=
-  match r with RFd n => Ok n | RErr e => Err e | _ => Err EBADRESP end.
+  match r with
+  | RFd n => if Z.leb 0 n then Ok n else Err EBADRESP
+  | RErr e => Err e
+  | _ => Err EBADRESP
+  end.
 Definition as_unit (r : resp) : result unit N :=
   match r with RErr e => Err e | RUnit => Ok tt | RNum _ => Ok tt | _ => Err EBADRESP end.
 Definition as_bytes (r : resp) : result bytes N :=
